@@ -83,13 +83,40 @@ def slices_ref(p, ns):
     return out
 
 
+class _PipeLike(io.RawIOBase):
+    """a source that can only be read forward (pipe, socket, HTTP body): not seekable, tell() fails"""
+    def __init__(self, data):
+        self._b = io.BytesIO(data)
+
+    def readable(self):
+        return True
+
+    def seekable(self):
+        return False
+
+    def readinto(self, buf):
+        chunk = self._b.read(min(len(buf), 4096))
+        buf[:len(chunk)] = chunk
+        return len(chunk)
+
+
+def in_stream(data):
+    """the file object a reader is given: io.BytesIO for half of the inputs, a buffered forward-only stream for the other
+    half (chosen by the content, so a replay sees the same kind).  The properties speak of files and interrupted
+    transfers; nothing in them needs a seekable source."""
+    import zlib
+    if zlib.crc32(bytes(data)) & 1:
+        return io.BufferedReader(_PipeLike(bytes(data)))
+    return io.BytesIO(data)
+
+
 def read_all_impl(f, blocked):
     """[records], outcome class, record_number, context — through VbsReader"""
     from cardutil import mciipm
     from util import exc_class
     recs = []
     try:
-        for r in mciipm.VbsReader(io.BytesIO(f), blocked=blocked):
+        for r in mciipm.VbsReader(in_stream(f), blocked=blocked):
             recs.append(r)
     except Exception as ex:
         cls = exc_class(ex)
